@@ -429,6 +429,19 @@ def coll_oracle(interp, env, f, args, t, bb, path):
             ret = f.get("ret", "")
             if ret.startswith("alloc::vec::Vec<"):
                 return new_vec(interp, [x for x in it.items])
+            if ret.startswith("core::result::Result<alloc::vec::Vec<") or ret.startswith("core::option::Option<alloc::vec::Vec<"):
+                good = "Ok" if ret.startswith("core::result") else "Some"
+                inner = []
+                for x in it.items:
+                    x = load(interp, env, x)
+                    if not isinstance(x, Agg) or x.variant is None:
+                        return TOP
+                    if x.variant != good:
+                        return x
+                    inner.append(x.fields[0])
+                from absint import ok as _ok
+                v = new_vec(interp, inner)
+                return _ok(v) if good == "Ok" else some(v)
             return TOP
         if nm == "count":
             return len(it.items)
